@@ -102,7 +102,7 @@ func checkC03(c *Ctx) {
 
 			// the record tested is perUser[asUid] with asUid a parameter of type Uid
 			recOK := false
-			core.AllInstrs(fn, func(in ssa.Instruction) {
+			c.withCallees(fn, 2, func(_ *ssa.Function, in ssa.Instruction, _ ssa.Instruction) {
 				call, ok := in.(*ssa.Call)
 				if !ok || core.CalleeOf(&call.Call) != isWriter {
 					return
@@ -216,7 +216,7 @@ func recordFromMapParam(base ssa.Value, m *types.Var) bool {
 	if isLookup(base) {
 		return true
 	}
-	if al, ok := base.(*ssa.Alloc); ok {
+	if al, ok := core.Strip(base).(*ssa.Alloc); ok {
 		n, good := 0, 0
 		for _, ref := range *al.Referrers() {
 			if st, ok := ref.(*ssa.Store); ok && st.Addr == al {
@@ -237,6 +237,24 @@ func (c *Ctx) isCallLifecycleFunc(fn *ssa.Function) bool {
 }
 
 // readsField: fn takes the address of (reads or writes) struct field f.
+// readsFieldDeep: fn or a module function it calls statically (two levels) reads the field.
+func (c *Ctx) readsFieldDeep(fn *ssa.Function, f *types.Var) bool {
+	found := false
+	c.withCallees(fn, 2, func(_ *ssa.Function, in ssa.Instruction, _ ssa.Instruction) {
+		switch x := in.(type) {
+		case *ssa.FieldAddr:
+			if g, _ := core.FieldOfAddr(x); g == f {
+				found = true
+			}
+		case *ssa.Field:
+			if g, _ := core.LoadedField(x); g == f {
+				found = true
+			}
+		}
+	})
+	return found
+}
+
 func (c *Ctx) readsField(fn *ssa.Function, f *types.Var) bool {
 	found := false
 	core.AllInstrs(fn, func(in ssa.Instruction) {
@@ -317,27 +335,19 @@ func (c *Ctx) checkC03Session() {
 			continue
 		}
 		// only functions that handle {pub}: they read ClientComMessage.Pub
-		readsPub := false
-		core.AllInstrs(fn, func(in ssa.Instruction) {
-			if fa, ok := in.(*ssa.FieldAddr); ok {
-				if g, _ := core.FieldOfAddr(fa); g == pubField {
-					readsPub = true
-				}
-			}
-		})
 		sendsB := chanSends(fn, core.IsFieldLoad(bcast))
 		sendsR := chanSends(fn, core.IsFieldLoad(routeCli))
-		if !readsPub || (len(sendsB) == 0 && len(sendsR) == 0) {
+		if len(sendsB) == 0 && len(sendsR) == 0 {
 			continue
 		}
-		if fn.Signature.Recv() == nil || !isPtrToNamed(fn.Signature.Recv().Type(), "Session") {
+		if fn.Signature.Recv() == nil || !isPtrToNamed(fn.Signature.Recv().Type(), "Session") || !c.readsFieldDeep(fn, pubField) {
 			continue
 		}
 		r.Func(fk(fn))
 		for _, s := range sendsB {
 			// the channel belongs to the value returned by getSub and the send is behind != nil
 			g := core.NilGuard("getSub(..)!=nil", core.IsCallTo(getSub), false)
-			ok, _ := core.GuardedBy(fn, s.Instr, g)
+			ok, _ := core.GuardedByCorr(fn, s.Instr, g)
 			_, base := core.LoadedField(core.Strip(s.Chan))
 			fromGet := base != nil && core.IsCallTo(getSub)(base)
 			r.Check(ok && fromGet, "C03.4-session-handoff", fk(fn)+": send on Subscription.broadcast", c.pos(s.Instr),
@@ -345,7 +355,7 @@ func (c *Ctx) checkC03Session() {
 		}
 		for _, s := range sendsR {
 			g := core.EqGuard("RcptTo==\"sys\"", core.IsFieldLoad(rcpt), core.IsConstString("sys"), true)
-			ok, _ := core.GuardedBy(fn, s.Instr, g)
+			ok, _ := core.GuardedByCorr(fn, s.Instr, g)
 			r.Check(ok, "C03.4-session-handoff", fk(fn)+": send on Hub.routeCli", c.pos(s.Instr),
 				"unattached publish is routed to the hub only for RcptTo==\"sys\"", "an unattached {pub} is routed through the hub for topics other than sys")
 		}
